@@ -104,13 +104,25 @@ def make_specs():
         if has_mem:
             s["ret"] = R.choice(["string", "bytes", "opt_string", "std_res_string", "pair", "boxed", "rec", "string", "u64"])
         else:
-            s["ret"] = R.choice(["u64", "u64", "string", "opt_u64", "res_u64", "std_res_string", "res_u64"])
+            s["ret"] = R.choice(["u64", "u64", "string", "opt_u64", "res_u64", "std_res_string", "res_u64", "rec", "rec"])
         s["shape"] = R.choice(SHAPES)["id"]
         s["receiver"] = R.choice(["free", "free", "free", "ref", "mutref", "value"])
         if s["receiver"] != "free" and s["shape"] == "a0":
             s["shape"] = R.choice(["a0", "a1"])
         s["gates"] = R.randint(1, 3) if flavour == "async" else 0
         specs.append(s)
+    # concurrency family: plain bounded caches (no ttl / max_memory / predicates) for every policy,
+    # so that eviction-order and popularity probes after a concurrent phase have subjects;
+    # half of them return `Rec`, whose Clone is a scheduling point inside the cache's read lock
+    for flavour in ["global", "async"]:
+        for pol in POLICIES:
+            for lim in (1, 2, 3):
+                fid += 1
+                s = dict(fid=fid, flavour=flavour, policy=pol, policy_written=pol, limit=lim, ttl=None, mem=None, fw=None,
+                         scope_written=None, name=None, cache_if=False, invalidate_on=False,
+                         ret=["rec", "u64", "rec"][lim - 1], shape=["a1", "a3", "a5"][lim - 1], receiver="free", gates=1 if flavour == "async" else 0)
+                s["tags"], s["events"], s["deps"] = (["t_conc"], [], []) if lim == 2 else ([], [], [])
+                specs.append(s)
     return specs
 
 
@@ -163,7 +175,8 @@ def emit(specs):
     w("#[derive(Debug, Clone, PartialEq)]\npub struct Svc { pub id: u32, pub tag: String }")
     w("impl cachelito_core::DefaultCacheableKey for Svc {}")
     w("impl vhooks::Dg for Svc { fn dg(&self, h: &mut vhooks::Hs) { h.byte(91); self.id.dg(h); self.tag.dg(h); } }")
-    w("#[derive(Debug, Clone, PartialEq)]\npub struct Rec { pub v: u64, pub s: String }")
+    w("#[derive(Debug, PartialEq)]\npub struct Rec { pub v: u64, pub s: String }")
+    w("impl Clone for Rec { fn clone(&self) -> Self { vhooks::clone_point(); Rec { v: self.v, s: self.s.clone() } } }")
     w("impl cachelito_core::MemoryEstimator for Rec { fn estimate_memory(&self) -> usize { std::mem::size_of::<Self>() + self.s.capacity() } }")
     w("impl Footprint for Rec { fn heap(&self) -> usize { self.s.capacity() } }")
     w("impl vhooks::Dg for Rec { fn dg(&self, h: &mut vhooks::Hs) { h.byte(92); self.v.dg(h); self.s.dg(h); } }")
